@@ -27,10 +27,18 @@ def gen_cases(ctx, n):
     cases = []
     rng = ctx.rng
     while len(cases) < n:
-        S, C, kinds = polys.gen_genpos_case(rng)
+        flat = rng.chance(1, 6)
+        if flat:         # nearly horizontal edges crossed by steep ones, around the origin
+            S, C, kinds = polys.gen_flat_case(rng)
+        else:
+            S, C, kinds = polys.gen_genpos_case(rng)
         reg = polys.REGIMES[len(cases) % len(polys.REGIMES)] if not rng.chance(1, 4) else polys.REGIMES[0]
+        if flat and (rng.chance(2, 3) or reg[1] > 2 ** 44):      # flat cases span +-3000: keep them inside +-2^61 after scaling
+            reg = polys.REGIMES[0]
         S2, C2, tf = polys.apply_regime(rng, S, C, reg)
-        probes = rng.chance(2, 5) or tf[0] >= 2 ** 44      # always at the magnitudes where binary64 cannot hold the coordinates
+        if polys.maxabs([S2, C2]) >= 2 ** 61:
+            continue
+        probes = flat or rng.chance(2, 5) or tf[0] >= 2 ** 44      # always at the magnitudes where binary64 cannot hold the coordinates
         if probes:      # scanlines right next to edge crossings (see polys.add_scanline_probes)
             S2, C2 = polys.add_scanline_probes(rng, S2, C2, k=tf[0], nmax=3 if tf[0] < 2 ** 40 else 12)
         cases.append(dict(S=S2, C=C2, regime=reg[0] + ('+probes' if probes else ''), k=tf[0], kinds=kinds, base=(S, C)))
@@ -329,10 +337,18 @@ def snapshots(ctx, exe, cases):
         for _ in range(k):
             n = int(t[pos]); pos += 1
             es = []
+            has_join = False
             for _ in range(n):
                 pt, d, wc, wc2, hot, opn, joined = t[pos:pos + 7]; pos += 7
+                has_join = has_join or joined != '0'
                 es.append('%s %s %s %s %s %s' % (pt, d, wc, wc2, hot, opn))
-            snaps.append('%d %s' % (n, ' '.join(es)))
+            if has_join:
+                # joined edges (CheckJoinLeft/Right) are deliberately not hot while contributing: outside the model's
+                # invariant (DESIGN C02), so such a snapshot is counted, not judged
+                ctx.count('ael_snapshots_with_joined_edges_not_judged')
+                snaps.append('0')
+            else:
+                snaps.append('%d %s' % (n, ' '.join(es)))
         nsnap += k
         inv_lines.append('INV %d %d %d %s' % (ct, fr, k, ' '.join(snaps)))
     res, fails = vf.par_lines(oracle, inv_lines)
